@@ -492,6 +492,28 @@ package listz
 //@ func SkipList.Head
 //@   requires skOK(s)
 //@   ensures result == ite(s.len == 0, nil, s.head.next[0])
+//@   requires[sq] len(s.head.next) == 32 && skSeq(s)
+//@   ensures[sq] result == ite(s.len == 0, nil, s.seq[1])
+
+// Keys / Values: the level-0 chain is the sequence, so the result is the keys (values) in ascending key order
+//@ func SkipList.Keys
+//@   requires skOK(s) && len(s.head.next) == 32 && skSeq(s)
+//@   ensures len(result) == s.len && (s.len == 0 ==> isnil(result)) && (s.len > 0 ==> fresh(result))
+//@   ensures forall k in 0..s.len: result[k] == skn(s.seq[k+1]).key
+//@   ensures forall k in 0..s.len-1: result[k] < result[k+1]
+//@   loop 1:
+//@     invariant 0 <= i && i <= s.len && len(keys) == s.len && fresh(keys) && e == ite(i < s.len, s.seq[i+1], nil)
+//@     invariant forall k in 0..i: keys[k] == skn(s.seq[k+1]).key
+//@     decreases s.len - i
+
+//@ func SkipList.Values
+//@   requires skOK(s) && len(s.head.next) == 32 && skSeq(s)
+//@   ensures len(result) == s.len && (s.len == 0 ==> isnil(result)) && (s.len > 0 ==> fresh(result))
+//@   ensures forall k in 0..s.len: result[k] == skn(s.seq[k+1]).val
+//@   loop 1:
+//@     invariant 0 <= i && i <= s.len && len(vals) == s.len && fresh(vals) && e == ite(i < s.len, s.seq[i+1], nil)
+//@     invariant forall k in 0..i: vals[k] == skn(s.seq[k+1]).val
+//@     decreases s.len - i
 
 // reach(cur, i): cur can be indexed at level i and below
 //@ spec canStep(cur ref, i int) bool = cur != nil && i < len(cur.next)
@@ -543,24 +565,68 @@ package listz
 //@   ensures[sq] result2 ==> !(forall m in refs(SkipNode): (m != nil && m.own == s) ==> m.key != key)
 
 //@ func SkipList.Range
-//@   noterm
 //@   traced f
 //@   requires skOK(s) && towerOK()
 //@   ensures s.len == 0 ==> ntr_f == 0
+//@   requires[sq] (s.len != 0 ==> len(s.head.next) == 32) && skSeq(s)
+//@   ensures[sq] 0 <= ntr_f && ntr_f <= s.len && forall k in 0..ntr_f: tr_f[k] == skn(s.seq[k+1]).key
+//@   ensures[sq] forall k in 1..ntr_f: f(skn(s.seq[k]).key, skn(s.seq[k]).val)
+//@   ensures[sq] ntr_f < s.len ==> (ntr_f >= 1 && !f(skn(s.seq[ntr_f]).key, skn(s.seq[ntr_f]).val))
 //@   loop 1:
 //@     invariant cur != nil && 0 < len(cur.next) && towerOK() && skOK(s)
+//@     invariant[sq] 0 <= ntr_f && ntr_f <= s.len && cur == s.seq[ntr_f] && skIn(s, cur) && cur.pos == ntr_f
+//@     invariant[sq] forall k in 0..ntr_f: tr_f[k] == skn(s.seq[k+1]).key
+//@     invariant[sq] forall k in 1..ntr_f+1: f(skn(s.seq[k]).key, skn(s.seq[k]).val)
+//@     decreases[sq] s.len - ntr_f
+//@   at loop1.body-begin:
+//@     assert[sq] cur.pos + 1 <= s.len ==> (skn(s.seq[cur.pos+1]).pos == cur.pos + 1 && skn(s.seq[cur.pos+1]).own == s && s.seq[cur.pos+1] != nil && len(skn(s.seq[cur.pos+1]).next) >= 1)
+//@     assert[sq] cur.next[0] != nil ==> (cur.next[0].own == s && cur.next[0].pos > cur.pos && cur.next[0].pos <= s.len)
+//@     assert[sq] cur.next[0] != nil ==> cur.next[0].pos <= cur.pos + 1
+//@     assert[sq] cur.next[0] != nil ==> cur.next[0] == s.seq[cur.pos+1]
 
 //@ func SkipList.RangeWithStart
 //@   noterm
 //@   traced f
 //@   requires skOK(s) && towerOK()
 //@   ensures s.len == 0 ==> ntr_f == 0
+//@   requires[sq] (s.len != 0 ==> len(s.head.next) == 32) && skSeq(s)
+//@   ghost[sq] q = 0
+//@   ensures[sq] 0 <= q && 0 <= ntr_f && q + ntr_f <= s.len
+//@   ensures[sq] forall k in 0..ntr_f: tr_f[k] == skn(s.seq[q+1+k]).key
+//@   ensures[sq] s.len != 0 ==> forall m in refs(SkipNode): (m != nil && m.own == s) ==> ((m.pos <= q) == (m.key < start))
+//@   ensures[sq] forall k in 1..ntr_f: f(skn(s.seq[q+k]).key, skn(s.seq[q+k]).val)
+//@   ensures[sq] (s.len != 0 && q + ntr_f < s.len) ==> (ntr_f >= 1 && !f(skn(s.seq[q+ntr_f]).key, skn(s.seq[q+ntr_f]).val))
 //@   loop 1:
 //@     invariant -1 <= i && i < s.level && cur != nil && 0 < len(cur.next) && (i >= 0 ==> i < len(cur.next)) && towerOK() && skOK(s)
+//@     invariant[sq] ntr_f == 0 && skIn(s, cur) && (cur != s.head ==> cur.key < start)
+//@     invariant[sq] i < s.level - 1 ==> (cur.next[i+1] == nil || cur.next[i+1].key > start)
 //@   loop 2:
 //@     invariant 0 <= i && i < s.level && cur != nil && i < len(cur.next) && towerOK() && skOK(s)
+//@     invariant[sq] ntr_f == 0 && skIn(s, cur) && (cur != s.head ==> cur.key < start)
 //@   loop 3:
 //@     invariant cur != nil && 0 < len(cur.next) && towerOK() && skOK(s)
+//@     invariant[sq] 0 <= q && 0 <= ntr_f && q + ntr_f <= s.len && cur == s.seq[q+ntr_f] && skIn(s, cur) && cur.pos == q + ntr_f
+//@     invariant[sq] forall k in 0..ntr_f: tr_f[k] == skn(s.seq[q+1+k]).key
+//@     invariant[sq] forall k in 1..ntr_f+1: f(skn(s.seq[q+k]).key, skn(s.seq[q+k]).val)
+//@     invariant[sq] forall m in refs(SkipNode): (m != nil && m.own == s) ==> ((m.pos <= q) == (m.key < start))
+//@   at after-call1:
+//@     ghost[sq] q = cur.pos - 1
+//@     assert[sq] cur.own == s && cur.key == start && 1 <= cur.pos && cur.pos <= s.len && cur == s.seq[cur.pos]
+//@     assert[sq] forall m in refs(SkipNode): (m != nil && m.own == s) ==> ((m.pos <= q) == (m.key < start))
+//@   at loop1.after:
+//@     ghost[sq] q = cur.pos - ntr_f
+//@     assert[sq] 0 <= cur.pos && cur.pos <= s.len && cur == s.seq[cur.pos]
+//@     assert[sq] ntr_f == 0 ==> (cur.pos + 1 <= s.len ==> (skn(s.seq[cur.pos+1]).pos == cur.pos + 1 && skn(s.seq[cur.pos+1]).own == s && s.seq[cur.pos+1] != nil && len(skn(s.seq[cur.pos+1]).next) >= 1))
+//@     assert[sq] ntr_f == 0 ==> (cur.next[0] == nil || (cur.next[0].key > start && cur.next[0].pos == cur.pos + 1))
+//@     assert[sq] forall m in refs(SkipNode): (m != nil && m.own == s && m.pos == cur.pos) ==> m == cur
+//@     assert[sq] forall m in refs(SkipNode): (m != nil && m.own == s) ==> ((m.pos <= q) == (m.key < start))
+//@   at loop3.body-begin:
+//@     assert[sq] cur.pos + 1 <= s.len ==> (skn(s.seq[cur.pos+1]).pos == cur.pos + 1 && skn(s.seq[cur.pos+1]).own == s && s.seq[cur.pos+1] != nil && len(skn(s.seq[cur.pos+1]).next) >= 1)
+//@     assert[sq] cur.next[0] != nil ==> (cur.next[0].own == s && cur.next[0].pos > cur.pos && cur.next[0].pos <= s.len)
+//@     assert[sq] cur.next[0] != nil ==> cur.next[0].pos <= cur.pos + 1
+//@     assert[sq] cur.next[0] != nil ==> cur.next[0] == s.seq[cur.pos+1]
+//@   at loop3.body-end:
+//@     assert[sq] cur == s.seq[q+ntr_f] && f(skn(s.seq[q+ntr_f]).key, skn(s.seq[q+ntr_f]).val)
 
 // U(j): update[j] is the predecessor of key on level j (the head or a member below key that is at least j+1 high)
 //@ spec skPred(s ref, u bytes_any, j int, key int) bool = skIn(s, u[j]) && (u[j] != s.head ==> u[j].key < key) && j < len(u[j].next) && (u[j].next[j] == nil || u[j].next[j].key >= key)
